@@ -31,7 +31,23 @@ e.g. HPAngle(value).dec()
 
 """
 
+from decimal import Decimal
 from math import radians
+
+
+def _hp_fields(hp):
+    """
+    Splits HP Notation into its degrees, minutes and seconds fields. The fields
+    are read from the shortest decimal number that identifies the float (the
+    digits it was written with, e.g. 512.06), to 13 places (1e-9 arc-second),
+    so that no floating point operation or binary expansion can move a digit.
+    :param hp: HP Notation (DDD.MMSSSS)
+    :type hp: float
+    :return: degrees (int), minutes (int), seconds (float), the 13 decimals (str)
+    """
+    hp_deg_str, hp_mmss_str = f'{Decimal(repr(abs(float(hp)))):.13f}'.split('.')
+    sec = float(hp_mmss_str[2:4] + '.' + hp_mmss_str[4:])
+    return int(hp_deg_str), int(hp_mmss_str[:2]), sec, hp_mmss_str
 
 
 class DECAngle(float):
@@ -207,7 +223,7 @@ class HPAngle(object):
         :param hp_angle: float HP angle
         """
         self.hp_angle = float(hp_angle)
-        hp_dec_str = f'{self.hp_angle:.13f}'.split('.')[1]
+        hp_dec_str = _hp_fields(self.hp_angle)[3]
         if int(hp_dec_str[0]) > 5:
             raise ValueError(f'Invalid HP Notation: 1st decimal place greater '
                              f'than 5: {self.hp_angle}')
@@ -955,8 +971,9 @@ def dec2hp(dec):
     # floating point precision is 13 places for the variable 'dec' where values
     # are between 256 and 512 degrees. Precision improves for smaller angles.
     # In calculating the variable 'second' the precision is degraded by a factor of 3600 
-    # Therefore 'second' should be rounded to 9 DP and tested for carry.
-    if round(second, 9) == 60:
+    # Therefore 'second' should be rounded to 9 DP and tested for carry (8 DP from
+    # 512 degrees, where neighbouring floats are more than 1e-13 apart).
+    if round(second, 9 if degree < 512 else 8) == 60:
         second = 0
         minute += 1
         if minute == 60:
@@ -1048,7 +1065,7 @@ def hp2dec(hp):
     """
     # Check if 1st and 3rd decimal place greater than 5 (invalid HP Notation)
     hp = float(hp)
-    hp_deg_str, hp_mmss_str = f'{hp:.13f}'.split('.')
+    deg, min, sec, hp_mmss_str = _hp_fields(hp)
     if int(hp_mmss_str[0]) > 5:
         raise ValueError(f'Invalid HP Notation: 1st decimal place greater '
                          f'than 5: {hp}')
@@ -1056,10 +1073,7 @@ def hp2dec(hp):
         if int(hp_mmss_str[2]) > 5:
             raise ValueError(f'Invalid HP Notation: 3rd decimal place greater '
                              f'than 5: {hp}')
-    # parse string to avoid precision problems with floating point ops and base 10 numbers
-    deg = abs(int(hp_deg_str))
-    min = int(hp_mmss_str[:2])
-    sec = float(hp_mmss_str[2:4] + '.' + hp_mmss_str[4:])
+    # fields parsed from the digits to avoid precision problems with floating point ops and base 10 numbers
     dec = sec / 3600 + min / 60 + deg
 
     return dec if hp >= 0 else -dec
@@ -1117,10 +1131,9 @@ def hp2dms(hp):
     :return: Degrees, Minutes, Seconds Object
     :rtype: DMSAngle
     """
-    degmin, second = divmod(round(abs(hp) * 1000, 10), 10)
-    degree, minute = divmod(degmin, 100)
-    return (DMSAngle(degree, minute, second * 10, positive=True) if hp >= 0
-            else DMSAngle(degree, minute, second * 10, positive=False))
+    degree, minute, second, _ = _hp_fields(hp)
+    return (DMSAngle(degree, minute, second, positive=True) if hp >= 0
+            else DMSAngle(degree, minute, second, positive=False))
 
 
 def hp2ddm(hp):
@@ -1131,9 +1144,8 @@ def hp2ddm(hp):
     :return: Degrees, Decimal Minutes Object
     :rtype: DDMAngle
     """
-    degmin, second = divmod(round(abs(hp) * 1000, 10), 10)
-    degree, minute = divmod(degmin, 100)
-    minute = minute + (second / 6)
+    degree, minute, second, _ = _hp_fields(hp)
+    minute = minute + (second / 60)
     return DDMAngle(degree, minute, positive=True) if hp >= 0 else DDMAngle(degree, minute, positive=False)
 
 
@@ -1247,7 +1259,10 @@ def dec2hp_v(dec):
 
 
 def hp2dec_v(hp):
-    degmin, second = divmod((abs(hp) * 1000).round(10), 10)
+    scaled = (abs(hp) * 1000).round(10)
+    # from 512 degrees the product is off by more than the 10th decimal place
+    scaled[abs(hp) >= 512] = scaled[abs(hp) >= 512].round(9)
+    degmin, second = divmod(scaled, 10)
     degree, minute = divmod(degmin, 100)
     dec = degree + (minute / 60) + (second / 360)
     dec[hp <= 0] = -dec[hp <= 0]
